@@ -170,6 +170,9 @@ func agree(typ reflect.Type, raw json.RawMessage, s *jsonschema.Schema, ov map[r
 	if nullable && len(typesOf(s)) > 0 && !hasNull {
 		return failf("%s: pointer-ness is not expressed as an added null type (types %v)", path, typesOf(s))
 	}
+	if !nullable && hasNull && typ.Kind() != reflect.Slice && typ.Kind() != reflect.Interface {
+		return failf("%s: type %s is not behind a pointer (and is not a slice) but its schema allows null (types %v)", path, typ, typesOf(s))
+	}
 	switch typ.Kind() {
 	case reflect.Struct:
 		keys, vals := orderedKeys(raw)
@@ -244,6 +247,11 @@ func agree(typ reflect.Type, raw json.RawMessage, s *jsonschema.Schema, ov map[r
 			return failf("%s: required is %q, fields without omitempty/omitzero are %q", path, s.Required, wantReq)
 		}
 		for _, k := range wantKeys {
+			if ps := s.Properties[k]; ps != nil {
+				if want := fields[k].Tag.Get("jsonschema"); ps.Description != want {
+					return failf("%s.%s: description is %q, the field's jsonschema tag says %q", path, k, ps.Description, want)
+				}
+			}
 			if fl := agree(fields[k].Type, vals[k], s.Properties[k], ov, ignore, path+"."+k, false); fl != nil {
 				return fl
 			}
